@@ -42,6 +42,10 @@ claim("C08", "sibling cross-check text encoder vs JSON encoder under tracked dep
       "Decides the header shape and time layout, delegation to the embedded JSON encoder exactly when nested with reset at depth 0, formatter/escaper agreement of depth-0 tokens with the JSON tokens, the separator two-state table, and that every hot-path slice whose bounds depend on a configuration integer is in range for ALL values of that integer (the 'no configured width makes a log call fail' clause).",
       NOTE_COMMON, "DESIGN.md §4 C08")
 
+claim("C11", "linear-form (frame arithmetic) analysis of the skip argument along every entry-point call chain into both caller look-ups",
+      "Decides for all 15 entry points and symbolically for Record's skip parameter that both look-ups evaluate to the frame of the statement calling the entry point (chain length d, helper depth h) and to each other, and that File/Line are written only under enableCaller. The runtime's own frame attribution for closures, defers, generics and inlining is a runtime contract and is not decided.",
+      NOTE_COMMON, "DESIGN.md §4 C11")
+
 PENDING_REASON = "check not built yet in this commit (static rule planned in DESIGN.md section 4); no claim is made until the rule exists and has been validated both ways"
 
 def main():
